@@ -673,11 +673,15 @@ func (l *Logger) Export() *HAR {
 	l.mu.Lock()
 	defer l.mu.Unlock()
 
+	// The export is a snapshot: the entries are copied, so that a response
+	// recorded later does not show up in an export taken earlier.
 	es := make([]*Entry, 0, len(l.entries))
 	curr := l.tail
 	for curr != nil {
 		curr = curr.next
-		es = append(es, curr)
+		e := *curr
+		e.next = nil
+		es = append(es, &e)
 		if curr == l.tail {
 			break
 		}
